@@ -78,4 +78,3 @@ func TestC13(t *testing.T) {
 		e.Ret("h", "Start", o)
 	})
 }
-
